@@ -2,6 +2,10 @@ import VlsModel.Lemmas.KVV
 import VlsModel.Gen.FnKvv
 import VlsModel.Gen.FnCloud
 import VlsModel.Gen.FnRedbVv
+import VlsModel.Gen.FnRedbKv
+import VlsModel.Gen.FnKvvMemNew
+import VlsModel.Gen.FnRedbSid
+import VlsModel.Props.C16Gen
 import VlsModel.Gen.FnKvvMem
 import VlsModel.Gen.FnKvvTrait
 import VlsModel.Gen.FnPersistMod
@@ -834,5 +838,267 @@ theorem C16_fn_mem_reset_versions (s : Gen.FnKvvMem.MemoryKVVStore) (hs : Rs.SSo
   simp only [hf]
   rw [h]
   cases Rs.smapGet s.data k <;> simp [Rs.smapGet]
+
+
+/-! ## Round 10 (b7): the redb store's `put` / `put_with_version` / `put_batch` / `get` / `delete` / `clear_database`
+through `x_fn` (`Gen/FnRedbKv.lean`, target `translate/fn_targets/RedbKv.b7.json`)
+
+The redb transaction idioms are normalised by the declared rules `b7_*` (write transaction = private working copy of the
+committed table, commit = the copy becomes the table, abort/drop = discarded) and the **table operations are declared
+externals** (`Database.table_get / table_insert / table_clear`, `Database` an opaque type): the generated definitions are
+parametric in the table implementation.  Theorems below either hold for *every* implementation (`…_lower_refused`,
+`…_higher_written`, `…_get`, `…_delete`, `…_clear_database`) or instantiate the table with the sorted map and show the
+result to be the `x_redb.py` definition (`Gen/FnRedb.lean`) that `Props/C16Gen.lean` ties to the hand-written model
+`KVV.Redb` (`…_put_with_version`, `…_put`, `…_put_batch`, and `…_model` down to `Redb.putV` / `Redb.batch`).  Here
+`encode_vv` is the generated function of the same unit (not an external), so `EncInj` is discharged. -/
+
+open VlsModel.Props.C16Gen (SimR AgreeR EncInj toCodeR)
+
+abbrev KvTbl := List (String × List Nat)
+abbrev KvStore := Gen.FnRedbKv.RedbKVVStore KvTbl
+abbrev GStore := Gen.FnRedb.RedbKVVStore
+
+/-- the record encoder of the source (`encode_vv`, generated in the same unit) as a pure function -/
+def kvEnc (v : Nat) (x : List Nat) : List Nat := Rs.toBeBytes 8 v ++ x
+
+/-- forget nothing: the x_fn structure over the table-as-map *is* the x_redb structure -/
+def kvToG (c : KvStore) : GStore := ⟨c.db, c.versions⟩
+
+theorem kv_encode_vv (v : Nat) (x : List Nat) (h : x.length + 8 ≤ Rs.USIZE_MAX) :
+    Gen.FnRedbKv.RedbKVVStore.encode_vv v x = .ok (kvEnc v x) := by
+  simp [Gen.FnRedbKv.RedbKVVStore.encode_vv, kvEnc, Rs.uadd, h, bind, Except.bind, pure, Except.pure]
+
+theorem loopM_congr {α σ ρ : Type} (l : List α) (f g : σ → α → Rs.M (Rs.Flow σ ρ))
+    (h : ∀ x ∈ l, ∀ s, f s x = g s x) : ∀ s, Rs.loopM l s f = Rs.loopM l s g := by
+  induction l with
+  | nil => intro s; rfl
+  | cons x xs ih =>
+    intro s
+    have ih' := ih (fun y hy => h y (List.mem_cons_of_mem _ hy))
+    simp only [Rs.loopM, h x List.mem_cons_self s]
+    cases g s x with
+    | error e => rfl
+    | ok fl => cases fl <;> simp [bind, Except.bind, ih']
+
+theorem loopB_congr {α σ : Type} (l : List α) (f g : σ → α → Rs.M (Rs.Flow σ Empty))
+    (h : ∀ x ∈ l, ∀ s, f s x = g s x) (s : σ) : Rs.loopB l s f = Rs.loopB l s g := by
+  unfold Rs.loopB; rw [loopM_congr l f g h s]
+
+/-- **`RedbKVVStore::put_with_version`** (x_fn, the table operations declared externals) instantiated with the
+    table-as-sorted-map is the x_redb definition that `C16_gen_redb_put_with_version` ties to the model -/
+theorem C16_fn_redbkv_put_with_version (c : KvStore) (k : String) (v : Nat) (x : List Nat)
+    (h : x.length + 8 ≤ Rs.USIZE_MAX) :
+    (Gen.FnRedbKv.RedbKVVStore.put_with_version Rs.smapGet Rs.smapInsert c k v x).map kvToG
+      = Gen.FnRedb.RedbKVVStore.put_with_version kvEnc (kvToG c) k v x := by
+  unfold Gen.FnRedbKv.RedbKVVStore.put_with_version Gen.FnRedb.RedbKVVStore.put_with_version
+  rw [kv_encode_vv v x h]
+  simp only [kvToG, bind, Except.bind, pure, Except.pure]
+  cases hv : Rs.smapGet c.versions k with
+  | none => rfl
+  | some w =>
+    simp only []
+    split
+    · rfl
+    · split
+      · cases hg : Rs.smapGet c.db k with
+        | none => rfl
+        | some e =>
+          simp only [Rs.unwrap, bind, Except.bind, pure, Except.pure]
+          split <;> rfl
+      · rfl
+
+/-- **`RedbKVVStore::put`**: the next version comes from the cache, then `put_with_version` (same bridge) -/
+theorem C16_fn_redbkv_put (c : KvStore) (k : String) (x : List Nat) (h : x.length + 8 ≤ Rs.USIZE_MAX) :
+    (Gen.FnRedbKv.RedbKVVStore.put Rs.smapGet Rs.smapInsert c k x).map kvToG
+      = Gen.FnRedb.RedbKVVStore.put kvEnc (kvToG c) k x := by
+  unfold Gen.FnRedbKv.RedbKVVStore.put Gen.FnRedb.RedbKVVStore.put
+  have hv : (kvToG c).versions = c.versions := rfl
+  rw [hv]
+  cases Rs.smapGet c.versions k with
+  | none => exact C16_fn_redbkv_put_with_version c k _ x h
+  | some w =>
+    cases hu : Rs.uadd Rs.U64_MAX w 1 with
+    | error e => simp [hu, bind, Except.bind, Except.map]
+    | ok n =>
+      simp only [hu, bind, Except.bind, pure, Except.pure]
+      exact C16_fn_redbkv_put_with_version c k _ x h
+
+/-- **`RedbKVVStore::delete`** is `put(key, empty)` (a tombstone with the next version), for every table implementation -/
+theorem C16_fn_redbkv_delete {D : Type} (tg : D → String → Option (List Nat)) (ti : D → String → List Nat → D)
+    (c : Gen.FnRedbKv.RedbKVVStore D) (k : String) :
+    Gen.FnRedbKv.RedbKVVStore.delete tg ti c k = Gen.FnRedbKv.RedbKVVStore.put tg ti c k [] := rfl
+
+theorem kv_decode_vv (b : List Nat) :
+    Gen.FnRedbKv.RedbKVVStore.decode_vv b
+      = if 8 ≤ b.length then .ok (Rs.fromBeBytes (b.take 8), b.drop 8) else .error .panic := by
+  unfold Gen.FnRedbKv.RedbKVVStore.decode_vv
+  by_cases h : 8 ≤ b.length
+  · have h8 : (List.take 8 b).length = 8 := by simp [List.length_take]; omega
+    have hd : List.take (b.length - 8) (List.drop 8 b) = List.drop 8 b :=
+      List.take_of_length_le (by simp [List.length_drop])
+    simp [Rs.slice, Rs.arrayOfSlice, h, h8, hd, bind, Except.bind, pure, Except.pure]
+  · simp [Rs.slice, h, bind, Except.bind, Rs.panic]
+
+/-- **`RedbKVVStore::get`**, for every table implementation: the answer is the decoding of exactly the record the
+    table holds under this key (absent → `None`; a record shorter than 8 bytes panics); the version cache is not
+    consulted and nothing is written -/
+theorem C16_fn_redbkv_get {D : Type} (tg : D → String → Option (List Nat)) (c : Gen.FnRedbKv.RedbKVVStore D) (k : String) :
+    Gen.FnRedbKv.RedbKVVStore.get tg c k
+      = match tg c.db k with
+        | none => .ok none
+        | some b => if 8 ≤ b.length then .ok (some (Rs.fromBeBytes (b.take 8), b.drop 8)) else .error .panic := by
+  unfold Gen.FnRedbKv.RedbKVVStore.get
+  cases h : tg c.db k with
+  | none => simp [h, pure, Except.pure]
+  | some b =>
+    by_cases h8 : 8 ≤ b.length <;> simp [h, kv_decode_vv, h8, bind, Except.bind, pure, Except.pure]
+
+/-- **`RedbKVVStore::clear_database`**, for every table implementation: the table is replaced by the cleared one
+    and the version cache is left as it is (a key written before keeps its version floor) -/
+theorem C16_fn_redbkv_clear_database {D : Type} (tc : D → D) (c : Gen.FnRedbKv.RedbKVVStore D) :
+    Gen.FnRedbKv.RedbKVVStore.clear_database tc c = .ok { c with db := tc c.db } := rfl
+
+theorem foldl_toG (sv : List (String × Nat)) (c : KvStore) :
+    kvToG (List.foldl (fun (self : KvStore) (x : String × Nat) =>
+        { self with versions := Rs.smapInsert self.versions x.1 x.2 }) c sv)
+      = List.foldl (fun (self : GStore) (x : String × Nat) =>
+        { self with versions := Rs.smapInsert self.versions x.1 x.2 }) (kvToG c) sv := by
+  induction sv generalizing c with
+  | nil => rfl
+  | cons a t ih => simp only [List.foldl_cons]; rw [ih]; rfl
+
+/-- the body of the loop of the x_fn `put_batch` (table operations = the sorted map) -/
+def bodyK (self : KvStore) :
+    C16Gen.AccC → String × (Nat × List Nat) → Rs.M (Rs.Flow C16Gen.AccC Empty) :=
+  fun (found_version_mismatch, tx, staged_versions) kvv => do
+        let (key, (version, value)) := (kvv.1, (kvv.2.1, kvv.2.2))
+        let vv ← Gen.FnRedbKv.RedbKVVStore.encode_vv version value
+        match (Option.or (Rs.smapGet staged_versions key) (Rs.smapGet self.versions key)) with
+        | some v =>
+            if (decide (version < v)) then
+              let found_version_mismatch := true
+              let tx := (Rs.smapInsert tx key vv)
+              let staged_versions := (Rs.smapInsert staged_versions key version)
+              pure (.next (found_version_mismatch, tx, staged_versions))
+            else
+              if (version == v) then
+                let existing ← Rs.unwrap (Rs.smapGet tx key)
+                let found_version_mismatch := (if (existing != vv) then (let found_version_mismatch := true; found_version_mismatch) else found_version_mismatch)
+                pure (.next (found_version_mismatch, tx, staged_versions))
+              else
+                let tx := (Rs.smapInsert tx key vv)
+                let staged_versions := (Rs.smapInsert staged_versions key version)
+                pure (.next (found_version_mismatch, tx, staged_versions))
+        | _ =>
+            let tx := (Rs.smapInsert tx key vv)
+            let staged_versions := (Rs.smapInsert staged_versions key version)
+            pure (.next (found_version_mismatch, tx, staged_versions))
+
+theorem bodyK_eq (c : KvStore) (e : String × (Nat × List Nat)) (h : e.2.2.length + 8 ≤ Rs.USIZE_MAX) (s : C16Gen.AccC) :
+    bodyK c s e = C16Gen.batchBody kvEnc (kvToG c) s e := by
+  obtain ⟨m, tx, sv⟩ := s
+  simp only [bodyK, C16Gen.batchBody, kv_encode_vv e.2.1 e.2.2 h, bind, Except.bind]
+  rfl
+
+/-- **`RedbKVVStore::put_batch`** (x_fn) on the table-as-sorted-map is the x_redb definition that
+    `C16_gen_redb_put_batch` ties to the model (`Redb.batch`: all or nothing, staged versions, the cache written
+    only after the commit) -/
+theorem C16_fn_redbkv_put_batch (c : KvStore) (es : List (String × (Nat × List Nat)))
+    (h : ∀ e ∈ es, e.2.2.length + 8 ≤ Rs.USIZE_MAX) :
+    (Gen.FnRedbKv.RedbKVVStore.put_batch Rs.smapInsert Rs.smapGet c es).map kvToG
+      = Gen.FnRedb.RedbKVVStore.put_batch kvEnc (kvToG c) es := by
+  have hK : Gen.FnRedbKv.RedbKVVStore.put_batch Rs.smapInsert Rs.smapGet c es = (do
+      let r ← Rs.loopB es (false, c.db, []) (bodyK c)
+      if r.1 then Rs.fail "Error::VersionMismatch"
+      else pure (List.foldl (fun (self : KvStore) (x : String × Nat) =>
+        { self with versions := Rs.smapInsert self.versions x.1 x.2 }) { c with db := r.2.1 } r.2.2)) := rfl
+  have hG : Gen.FnRedb.RedbKVVStore.put_batch kvEnc (kvToG c) es = (do
+      let r ← Rs.loopB es (false, c.db, []) (C16Gen.batchBody kvEnc (kvToG c))
+      if r.1 then Rs.fail "Error::VersionMismatch"
+      else pure (List.foldl (fun (self : GStore) (x : String × Nat) =>
+        { self with versions := Rs.smapInsert self.versions x.1 x.2 }) { (kvToG c) with db := r.2.1 } r.2.2)) := rfl
+  rw [hK, hG, loopB_congr es (bodyK c) (C16Gen.batchBody kvEnc (kvToG c)) (fun e he s => bodyK_eq c e (h e he) s)]
+  cases Rs.loopB es (false, c.db, []) (C16Gen.batchBody kvEnc (kvToG c)) with
+  | error e => rfl
+  | ok r =>
+    obtain ⟨m, tx, sv⟩ := r
+    cases m
+    · simp only [bind, Except.bind, Except.map, pure, Except.pure, Bool.false_eq_true, if_false]
+      congr 1
+      exact foldl_toG sv _
+    · rfl
+
+/-! ### down to the hand-written model `KVV.Redb` (composition with `Props/C16Gen.lean`) -/
+
+theorem encInj_enc : EncInj kvEnc := fun v x v' x' hv hv' h => C16_fn_redb_encode_inj v v' x x' hv hv' h
+
+/-- the x_fn `put_with_version` simulates the model's `Redb.putV`: lower version → `mismatch`, same version → the
+    content must be equal and nothing is written, higher / new → table and cache written -/
+theorem C16_fn_redbkv_put_with_version_model (f : Key → String) (hf : ∀ a b, f a = f b → a = b)
+    (c : KvStore) (s : Redb) (h : SimR f kvEnc (kvToG c) s) (k : Key) (v : Nat) (x : Val) (hv : v ≤ U64MAX)
+    (hx : x.length + 8 ≤ Rs.USIZE_MAX) :
+    AgreeR f kvEnc ((Gen.FnRedbKv.RedbKVVStore.put_with_version Rs.smapGet Rs.smapInsert c (f k) v x).map kvToG)
+      (Redb.putV s k v x) := by
+  rw [C16_fn_redbkv_put_with_version c (f k) v x hx]
+  exact C16Gen.C16_gen_redb_put_with_version f hf kvEnc encInj_enc (kvToG c) s h k v x hv
+
+/-- the x_fn `put_batch` simulates the model's `Redb.batch` (all or nothing) -/
+theorem C16_fn_redbkv_put_batch_model (f : Key → String) (hf : ∀ a b, f a = f b → a = b)
+    (c : KvStore) (s : Redb) (h : SimR f kvEnc (kvToG c) s) (es : List (Key × Rec)) (hv : ∀ e ∈ es, e.2.1 ≤ U64MAX)
+    (hx : ∀ e ∈ toCodeR f es, e.2.2.length + 8 ≤ Rs.USIZE_MAX) :
+    AgreeR f kvEnc ((Gen.FnRedbKv.RedbKVVStore.put_batch Rs.smapInsert Rs.smapGet c (toCodeR f es)).map kvToG)
+      (Redb.batch s es) := by
+  rw [C16_fn_redbkv_put_batch c (toCodeR f es) hx]
+  exact C16Gen.C16_gen_redb_put_batch f hf kvEnc encInj_enc (kvToG c) s h es hv
+
+/-- for EVERY implementation of the table operations: a version below the cached one is refused before the table is
+    touched (no external is consulted) -/
+theorem C16_fn_redbkv_lower_refused {D : Type} (tg : D → String → Option (List Nat)) (ti : D → String → List Nat → D)
+    (c : Gen.FnRedbKv.RedbKVVStore D) (k : String) (v w : Nat) (x : List Nat)
+    (hc : Rs.smapGet c.versions k = some w) (hlt : v < w) (hx : x.length + 8 ≤ Rs.USIZE_MAX) :
+    Gen.FnRedbKv.RedbKVVStore.put_with_version tg ti c k v x = .error (.err "Error::VersionMismatch") := by
+  unfold Gen.FnRedbKv.RedbKVVStore.put_with_version
+  rw [kv_encode_vv v x hx]
+  simp [bind, Except.bind, hc, hlt, Rs.fail]
+
+/-- for EVERY implementation of the table operations: an accepted write (new key or higher version) inserts exactly
+    `encode_vv(version, value)` under the key and records the version in the cache -/
+theorem C16_fn_redbkv_higher_written {D : Type} (tg : D → String → Option (List Nat)) (ti : D → String → List Nat → D)
+    (c : Gen.FnRedbKv.RedbKVVStore D) (k : String) (v : Nat) (x : List Nat)
+    (hc : ∀ w, Rs.smapGet c.versions k = some w → w < v) (hx : x.length + 8 ≤ Rs.USIZE_MAX) :
+    Gen.FnRedbKv.RedbKVVStore.put_with_version tg ti c k v x
+      = .ok { db := ti c.db k (kvEnc v x), versions := Rs.smapInsert c.versions k v } := by
+  unfold Gen.FnRedbKv.RedbKVVStore.put_with_version
+  rw [kv_encode_vv v x hx]
+  cases hg : Rs.smapGet c.versions k with
+  | none => simp [bind, Except.bind, pure, Except.pure]
+  | some w =>
+    have hw := hc w hg
+    have h1 : ¬ v < w := by omega
+    have h2 : (v == w) = false := by simp; omega
+    simp [bind, Except.bind, pure, Except.pure, h1, h2]
+
+example : Gen.FnRedbKv.RedbKVVStore.put_with_version (Database := KvTbl) Rs.smapGet Rs.smapInsert ⟨[], [("a", 3)]⟩ "a" 2 [1]
+    = .error (.err "Error::VersionMismatch") :=
+  C16_fn_redbkv_lower_refused _ _ _ "a" 2 3 [1] (by simp [Rs.smapGet]) (by omega) (by simp [Rs.USIZE_MAX])
+
+example : Gen.FnRedbKv.RedbKVVStore.get (Database := KvTbl) Rs.smapGet ⟨[("a", [0, 0, 0, 0, 0, 0, 1, 2, 9, 8])], []⟩ "a"
+    = .ok (some (258, [9, 8])) := by
+  rw [C16_fn_redbkv_get]; simp [Rs.smapGet, Rs.fromBeBytes]
+
+/-! ### Round 10 (b7): constructors / identity accessors (`Gen/FnKvvMemNew.lean`, `Gen/FnRedbSid.lean`)
+
+A fresh memory store is empty — every key reads `None` (`get` of the same unit), there is no version floor — and
+keeps the signer id it was given; `signer_id()` of both stores is the stored field. -/
+theorem C16_fn_mem_new {I : Type} (sid : I) :
+    Gen.FnKvvMemNew.MemoryKVVStore.new sid = { data := [], signer_id := sid } := rfl
+theorem C16_fn_mem_new_empty {I : Type} (sid : I) (k : String) :
+    Rs.smapGet (Gen.FnKvvMemNew.MemoryKVVStore.new sid).data k = none := rfl
+theorem C16_fn_mem_signer_id {I : Type} (s : Gen.FnKvvMemNew.MemoryKVVStore I) :
+    s.signer_id_fn = s.signer_id := rfl
+theorem C16_fn_mem_new_signer_id {I : Type} (sid : I) :
+    (Gen.FnKvvMemNew.MemoryKVVStore.new sid).signer_id_fn = sid := rfl
+theorem C16_fn_redb_signer_id {I : Type} (s : Gen.FnRedbSid.RedbKVVStore I) :
+    s.signer_id_fn = s.signer_id := rfl
 
 end VlsModel.Props.C16Fn
